@@ -138,6 +138,23 @@ def check_render(seq, R, proj):
                 out.append(("C14.ModSampling", {"clause": "length", "ch": names[i], "expected": ch["df"],
                                                 "got": got, "plain_len": ch["du"]}))
                 break
+        # C15: the detuning between pulses is the off-detuning, also at the output: a channel that
+        # is in EOM mode from t = 0 and idles for at least two EOM rise times idles at the
+        # off-detuning of ITS FIRST block at t = 0
+        for i, ch in enumerate(proj["ch"]):
+            cobj = scheds[i].channel_obj
+            if not ch["eb"] or ch["eb"][0]["ti"] != 0 or ch["du"] == 0 or not cobj.supports_eom():
+                continue
+            er = int(cobj.eom_config.rise_time)
+            first_real = min([s["ti"] for s in ch["sl"] if s["k"] == "p" and not s["dd"]] + [10 ** 9])
+            first_block_end = ch["eb"][0]["tf"] if ch["eb"][0]["tf"] != -1 else ch["du"]
+            if first_real < 2 * er or first_block_end < 2 * er or ch["du"] < 2 * er:
+                continue
+            doff = ch["eb"][0]["doff"] / 1e6
+            got0 = float(_arr(sm.samples_list[i].det)[0])
+            if abs(got0 - doff) > 0.02 * abs(doff) + 1e-6:
+                out.append(("C15.ModulatedIdleDetuning", {"clause": "t0", "ch": names[i], "expected": doff,
+                                                          "got": got0, "blocks": len(ch["eb"])}))
     except Exception as e:  # noqa: BLE001
         empty = any(ch["du"] == 0 for ch in proj["ch"])
         out.append(("C14.ModSampling", {"clause": "raises", "exc": type(e).__name__,
